@@ -453,6 +453,9 @@ func (e *Env) ident(name string) (*SVal, error) {
 			return e.constant(cst)
 		}
 	}
+	if y, ok := e.t.aliases[name]; ok && y != name {
+		return e.ident(y)
+	}
 	return nil, e.errf("unknown identifier %q", name)
 }
 
